@@ -47,4 +47,11 @@ def r_norm_corners(run, tree):
     qs.check_norm_corner_cases(run, tree)
 
 
-RULES = [r1_fold, r_conversion, r_parent_links, r_norm_corners]
+def r5_group_indexing(run, tree):
+    run.rule("C16.R5", "the row selection extract_* relies on: group[mask] applies ONE selection to every member, for boolean masks of every rank "
+             "(a full mask on N-d members selects elements, not whole first-axis rows; shared with C06.R3)", "D7 fold of Datagroup.__getitem__ over index kinds x group compositions", "", floor=5)
+    from . import core_folds as cf
+    cf.check_group_indexing(run, tree)
+
+
+RULES = [r1_fold, r_conversion, r_parent_links, r_norm_corners, r5_group_indexing]
